@@ -1,37 +1,7 @@
-import LinfaSpec.Model.Determinism
+import LinfaSpec.Proofs.Determinism
 
-/-!
-Helper lemmas for C20 (core Lean only in this first part).
--/
 namespace LinfaSpec.Determinism
 open List
-
-/-! ### disjoint-write loop -/
-
-theorem parFor_cons {β} (f : Nat → β) (j : Nat) (js : List Nat) (init : List β) :
-    parFor f (j :: js) init = parFor f js (init.set j (f j)) := rfl
-
-theorem parFor_length {β} (f : Nat → β) (sched : List Nat) (init : List β) :
-    (parFor f sched init).length = init.length := by
-  induction sched generalizing init with
-  | nil => rfl
-  | cons j js ih => rw [parFor_cons, ih, List.length_set]
-
-/-- cell `i` after the loop: written iff some task `i` ran -/
-theorem parFor_getElem? {β} (f : Nat → β) (sched : List Nat) (init : List β) (i : Nat) :
-    (parFor f sched init)[i]? =
-      if i ∈ sched ∧ i < init.length then some (f i) else init[i]? := by
-  induction sched generalizing init with
-  | nil => simp [parFor]
-  | cons j js ih =>
-    rw [parFor_cons, ih, List.length_set, List.getElem?_set]
-    by_cases hji : j = i
-    · subst hji
-      by_cases hl : j < init.length
-      · simp [hl]
-      · simp [hl]
-    · have hij : ¬ i = j := fun h => hji h.symm
-      simp [hji, hij]
 
 theorem eq_of_map_eq {α β} (g : α → β) {l : List α} (hnd : (l.map g).Nodup) {a b : α}
     (ha : a ∈ l) (hb : b ∈ l) (h : g a = g b) : a = b := by
@@ -158,33 +128,24 @@ theorem ClInv.minKey_nodup {cl : List (Nat × List Nat)} (h : ClInv cl) :
   subst this
   exact hd m hm hm'
 
-theorem sortClusters_perm {c₁ c₂ : List (Nat × List Nat)} (p : c₁ ~ c₂)
-    (hnd : (c₁.map fun c => minKey c.2).Nodup) : sortClusters c₁ = sortClusters c₂ := by
-  unfold sortClusters
-  apply List.Perm.eq_of_pairwise (le := fun a b => decide (minKey a.2 ≤ minKey b.2))
-  · intro a b ha hb hab hba
-    have ha' : a ∈ c₁ := (List.mergeSort_perm c₁ _).subset ha
-    have hb' : b ∈ c₁ := p.symm.subset ((List.mergeSort_perm c₂ _).subset hb)
-    simp only [decide_eq_true_eq] at hab hba
-    exact eq_of_map_eq (fun c => minKey c.2) hnd ha' hb' (by omega)
-  · apply List.pairwise_mergeSort
-    · intro a b c hab hbc; simp only [decide_eq_true_eq] at *; omega
-    · intro a b; simp only [Bool.or_eq_true, decide_eq_true_eq]; omega
-  · apply List.pairwise_mergeSort
-    · intro a b c hab hbc; simp only [decide_eq_true_eq] at *; omega
-    · intro a b; simp only [Bool.or_eq_true, decide_eq_true_eq]; omega
-  · exact (List.mergeSort_perm c₁ _).trans (p.trans (List.mergeSort_perm c₂ _).symm)
-
 theorem hierLabels_perm {n : Nat} {c₁ c₂ : List (Nat × List Nat)} (p : c₁ ~ c₂)
     (hnd : (c₁.map fun c => minKey c.2).Nodup) : hierLabels n c₁ = hierLabels n c₂ := by
   unfold hierLabels
-  rw [sortClusters_perm p hnd]
-
-/-- evaluating the sort on a concrete map: any sorted permutation is the result -/
-theorem sortClusters_eq {c s : List (Nat × List Nat)} (p : c ~ s)
-    (hnd : (c.map fun c => minKey c.2).Nodup)
-    (hs : s.Pairwise fun a b => decide (minKey a.2 ≤ minKey b.2) = true) : sortClusters c = s := by
-  rw [sortClusters_perm p hnd]
-  exact List.mergeSort_of_pairwise hs
+  have : c₁.mergeSort (fun a b => decide (minKey a.2 ≤ minKey b.2)) =
+      c₂.mergeSort (fun a b => decide (minKey a.2 ≤ minKey b.2)) := by
+    apply List.Perm.eq_of_pairwise (le := fun a b => decide (minKey a.2 ≤ minKey b.2))
+    · intro a b ha hb hab hba
+      have ha' : a ∈ c₁ := (List.mergeSort_perm c₁ _).subset ha
+      have hb' : b ∈ c₁ := p.symm.subset ((List.mergeSort_perm c₂ _).subset hb)
+      simp only [decide_eq_true_eq] at hab hba
+      exact eq_of_map_eq (fun c => minKey c.2) hnd ha' hb' (by omega)
+    · apply List.pairwise_mergeSort
+      · intro a b c hab hbc; simp only [decide_eq_true_eq] at *; omega
+      · intro a b; simp only [Bool.or_eq_true, decide_eq_true_eq]; omega
+    · apply List.pairwise_mergeSort
+      · intro a b c hab hbc; simp only [decide_eq_true_eq] at *; omega
+      · intro a b; simp only [Bool.or_eq_true, decide_eq_true_eq]; omega
+    · exact (List.mergeSort_perm c₁ _).trans (p.trans (List.mergeSort_perm c₂ _).symm)
+  simp only [this]
 
 end LinfaSpec.Determinism
